@@ -121,6 +121,8 @@ impl<'a> ContextType<'a> {
 pub struct FunctionArg {
     ty: String,
     name: String,
+    /// Part of the declarator that follows the name (function pointer arguments).
+    suffix: String,
 }
 
 #[derive(Clone)]
@@ -162,7 +164,7 @@ impl Function {
             .chain(
                 self.arguments
                     .iter()
-                    .map(|a| format!("{} {}", a.ty, a.name)),
+                    .map(|a| format!("{} {}{}", a.ty, a.name, a.suffix)),
             ),
             ", ".to_string(),
         )
@@ -385,6 +387,11 @@ impl<'a> Iterator for ArgsParser<'a> {
     }
 }
 
+thread_local! {
+    static FN_PTR_ARG: Regex =
+        Regex::new(r"^(?P<ty>.*\(\*)\s*(?P<name>\w+)(?P<suffix>\)\(.*)$").unwrap();
+}
+
 fn parse_arguments(args: &str) -> impl Iterator<Item = (&str, &str)> {
     ArgsParser { args }
 }
@@ -409,10 +416,22 @@ impl Vtable {
 
                 if !args.is_empty() {
                     for (ty, name) in parse_arguments(&args[1..]) {
-                        arguments.push(FunctionArg {
-                            ty: ty.into(),
-                            name: name.into(),
+                        // Function pointer arguments carry their name inside the declarator:
+                        // `ret (*name)(args)`
+                        let whole = format!("{} {}", ty, name);
+
+                        let fn_ptr = FN_PTR_ARG.with(|r| {
+                            r.captures(&whole).map(|c| {
+                                (c["ty"].to_string(), c["name"].to_string(), c["suffix"].to_string())
+                            })
                         });
+
+                        let (ty, name, suffix) = match fn_ptr {
+                            Some(v) => v,
+                            None => (ty.to_string(), name.to_string(), String::new()),
+                        };
+
+                        arguments.push(FunctionArg { ty, name, suffix });
                     }
                 }
 
